@@ -82,7 +82,7 @@ let defaults = [
   "nrecs_max", 2; "nfuncs_min", 1; "nfuncs_max", 3; "depth", 3; "main_items", 5; "block_items", 2;
   "budget_main", 2500; "budget_fn", 200; "esc", 150; "unk", 40; "max_nodes", 450;
   "fault", 4; "shadow", 0; "late_shadow", 0; "print", 5; "dump", 60; "catch", 10; "varparam", 20;
-  "tail_lo", 300; "tail_hi", 1200; "nilp", 3; "big_lit", 30; "main_bool", 10;
+  "tail_lo", 40; "tail_hi", 250; "nilp", 3; "big_lit", 30; "main_bool", 10;
   (* int forms *)
   "i_lit", 22; "i_var", 34; "i_neg", 4; "i_bnot", 3; "i_arith", 30; "i_divmod", 7; "i_bit", 7;
   "i_shift", 4; "i_cond", 7; "i_call", 12; "i_fcall", 6; "i_index", 8; "i_field", 8; "i_assign", 5;
@@ -127,7 +127,7 @@ let profiles = [
              "rf_arr", 25];
   "catch", ["id_catch", 100; "id_repeat", 3; "catch", 60; "fault", 22; "nilp", 12; "nfuncs_min", 2; "nfuncs_max", 4;
             "i_call", 22; "it_call", 14; "it_loop", 10; "t_rec", 14; "t_arr", 14; "it_func", 10];
-  "tailrec", ["id_tail", 100; "id_repeat", 2; "f_tail", 30; "id_mutual", 40; "budget_main", 12000;
+  "tailrec", ["id_tail", 100; "id_repeat", 2; "f_tail", 30; "id_mutual", 40; "budget_main", 12000; "tail_lo", 200; "tail_hi", 700;
               "nfuncs_max", 2; "main_items", 3; "depth", 2];
   "mix", ["id_counter", 15; "id_adder", 10; "id_loopcap", 10; "id_reccap", 10; "id_compose", 10; "id_alias", 25;
           "id_catch", 25; "id_shadow", 15; "id_order", 20; "id_agg", 20; "shadow", 15; "catch", 20; "fault", 8;
@@ -541,6 +541,12 @@ and gen_block st env ty d ~items : item list * k =
 
 (* like gen_block but keeps env.block / env.forbid (the caller prepared them) *)
 and gen_block_in st env ty d ~items : item list * k =
+  let env', its = gen_items st env d ~items in
+  let e, k = gen_expr st env' ty d ~op:false in
+  (its @ [IExpr e], k)
+
+(* n random items; returns them with the environment after them *)
+and gen_items st env d ~items : env * item list =
   let rec go env n acc =
     if n <= 0 || over st env then (env, acc)
     else
@@ -549,8 +555,7 @@ and gen_block_in st env ty d ~items : item list * k =
           { env' with forbid = List.fold_left (fun s it -> IS.union s (Uniq.closure_free_of_item it)) env'.forbid its } in
       go env' (n - 1) (List.rev_append its acc) in
   let env', acc = go env items [] in
-  let e, k = gen_expr st env' ty d ~op:false in
-  (List.rev (IExpr e :: acc), k)
+  (env', List.rev acc)
 
 and gen_binding st env d : item list * env =
   let ty = rand_type st in
@@ -713,7 +718,8 @@ and gen_named_func ?(toplevel = false) ?kind st env d : fdef * vinfo =
       let base, _ = gen_expr st env_b ret (min d 2) ~op:false in
       let r = { rf = self; rn = mv; sites } in
       let env_r = { env_b with recf = Some r } in
-      let call () = match rec_call st env_r r (max d 2) with Some e -> e | None -> base in
+      let call_in env = match rec_call st env r (max d 2) with Some e -> e | None -> base in
+      let call () = call_in env_r in
       let recexpr =
         match ret with
         | TInt ->
@@ -721,8 +727,10 @@ and gen_named_func ?(toplevel = false) ?kind st env d : fdef * vinfo =
             30, (fun () -> let c = call () in EBin (Rng.pick st.rng [Add; Sub; Mul; BXor], c, fst (gen_expr st env_r TInt (min d 2) ~op:true)));
             20, (fun () -> let f = fst (gen_expr st env_r TInt (min d 2) ~op:true) in EBin (Rng.pick st.rng [Add; Sub], f, call ()));
             20, (fun () -> call ());
-            15, (fun () -> let its, _ = gen_block st env_r TInt 1 ~items:1 in
-                  EBlock (List.rev (IExpr (call ()) :: List.tl (List.rev its))));
+            15, (fun () ->
+                (* the items of this block may not hide f or n: the call is its last item *)
+                let env', its = gen_items st { env_r with block = []; forbid = IS.of_list [name; m]; recf = None } 1 ~items:1 in
+                EBlock (its @ [IExpr (call_in { env' with recf = Some r })]));
             15, (fun () -> let c = call () in EBin (Add, c, fst (gen_expr st env_r TInt (max d 2) ~op:true))) ] ()
         | TBool when Rng.bool st.rng -> ENot (call ())
         | _ -> call () in
